@@ -8,16 +8,28 @@ from corankco.kemeny_score_computation import KemenyComputingFactory
 
 
 def make(case):
-    ds = Dataset.from_raw_list([[set(b) for b in r] for r in case["D"]])
-    cand = Ranking([set(b) for b in case["c"]])
+    # gen.fwd / gen.back: the case may rename its integers (gen.decorate_cases); the model keeps working on the case's own integers
+    ds = Dataset.from_raw_list([[{gen.fwd(e) for e in b} for b in r] for r in case["D"]])
+    cand = Ranking([{gen.fwd(e) for e in b} for b in case["c"]])
     return ds, cand
 
 
 def cand_listing(cand):
-    return [[e.value for e in b] for b in cand.buckets]
+    return [[gen.back(e.value) for e in b] for b in cand.buckets]
+
+
+def derived_scheme(s):
+    """the scheme of the case obtained as 2 * (a scheme that has already been used to compute a score), when halving is exact"""
+    half = [[x / 2 for x in s[0]], [x / 2 for x in s[1]]]
+    if [[x * 2 for x in half[0]], [x * 2 for x in half[1]]] != [list(map(float, s[0])), list(map(float, s[1]))]:
+        return None
+    base = ScoringScheme(half)
+    KemenyComputingFactory(base).get_kemeny_score(Ranking([{1}, {2, 3}]), Dataset.from_raw_list([[{1}, {2}], [{3}, {2}, {1}]]))
+    return base
 
 
 class Kemeny(Suite):
+    names_rate = 0.12        # hostile element names, strings or integers (gen.decorate_cases)
     name = "kemeny"
     imports = ["Scheme", "Rank", "KemenyImpl", "Judge.JC01"]
     judge = "judge_kemeny"
@@ -53,6 +65,8 @@ class Kemeny(Suite):
                 for _ in range(rng.randint(1, 2)):
                     c.insert(rng.randint(0, len(c)), [])
             case = {"s": gen.pick_scheme(rng), "D": D, "c": c}
+            if rng.random() < 0.15:
+                case["derived"] = rng.choice([1, 2])
             if rng.random() < 0.2:
                 case["neighbours"] = True   # the same candidate was scored under proportional schemes just before (same process)
             if rng.random() < 0.25:
@@ -66,6 +80,12 @@ class Kemeny(Suite):
     def run(self, case):
         ds, cand = make(case)
         sc = ScoringScheme(case["s"])
+        if case.get("derived"):
+            # the scheme is the product of a number and a scheme object that has a past (scores were computed with it)
+            base = derived_scheme(case["s"])
+            if base is not None:
+                sc = base * 2 if case["derived"] == 1 else 2 * base
+                assert sc.penalty_vectors == ScoringScheme(case["s"]).penalty_vectors
         out = {"D": gen.observe(ds), "c": cand_listing(cand)}
         try:
             if case.get("via") == "consensus":
@@ -73,7 +93,7 @@ class Kemeny(Suite):
                 # its score read on demand - and read again
                 from corankco.consensus import Consensus
                 if len(case["c"]) > 1:       # another object of the same kind lived before this one (keeps the replay self-contained)
-                    Consensus([Ranking([set(b) for b in reversed(case["c"])])], ds, sc).kemeny_score
+                    Consensus([Ranking([{gen.fwd(e) for e in b} for b in reversed(case["c"])])], ds, sc).kemeny_score
                 co = Consensus([cand], ds, sc)
                 v = co.kemeny_score
                 assert co.kemeny_score == v
